@@ -61,9 +61,11 @@ static size_t count_occ(const std::string& hay, const void* needle, size_t n) { 
     while ((p = (const char*)memmem(p, e - p, needle, n))) { c++; p++; } return c; }
 static void cloud_report(TFheGateBootstrappingSecretKeySet* sk, const char* label) {
     const TFheGateBootstrappingParameterSet* gp = sk->params; int n = gp->in_out_params->n, N = gp->tgsw_params->tlwe_params->N, k = gp->tgsw_params->tlwe_params->k;
-    for (int tr = 0; tr < 2; tr++) {
+    for (int tr = 0; tr < 3; tr++) {
         Sink sc, ss; LogBuf bc(&sc), bs(&ss); std::ostream oc(&bc), os(&bs);
-        if (tr == 0) { export_tfheGateBootstrappingCloudKeySet_toStream(oc, &sk->cloud); export_tfheGateBootstrappingSecretKeySet_toStream(os, sk); }
+        if (tr == 2) {   // both files open at once: cloud written first, secret second, the cloud file closed last (whatever one export leaves buffered must not reach the other file)
+            FILE* fc = open_sink(&sc); FILE* fs = open_sink(&ss); export_tfheGateBootstrappingCloudKeySet_toFile(fc, &sk->cloud); export_tfheGateBootstrappingSecretKeySet_toFile(fs, sk); fclose(fs); fclose(fc); }
+        else if (tr == 0) { export_tfheGateBootstrappingCloudKeySet_toStream(oc, &sk->cloud); export_tfheGateBootstrappingSecretKeySet_toStream(os, sk); }
         else { FILE* f = open_sink(&ss); export_tfheGateBootstrappingSecretKeySet_toFile(f, sk); fclose(f); f = open_sink(&sc); export_tfheGateBootstrappingCloudKeySet_toFile(f, &sk->cloud); fclose(f); }   // secret first, then cloud (the tutorial's order)
         size_t text = 0, bin = 0; for (auto& c : sc.calls) { if (c.head.compare(0, 5, "-----") == 0 || (c.len < 160 && c.head.find(": ") != std::string::npos && isalpha((unsigned char)c.head[0]) && c.head[c.head.size() - 1] == '\n')) text += c.len; else bin += c.len; }
         // encodings of the secret keys: int32 arrays (the library's own), one byte per bit, bit-packed (controls)
@@ -77,7 +79,7 @@ static void cloud_report(TFheGateBootstrappingSecretKeySet* sk, const char* labe
         int prefix = ss.data.size() > sc.data.size() && memcmp(ss.data.data(), sc.data.data(), sc.data.size()) == 0;
         // importing the cloud export: consumes exactly its bytes; the result evaluates (has bk and bkFFT)
         std::istringstream is(sc.data); TFheGateBootstrappingCloudKeySet* ck = new_tfheGateBootstrappingCloudKeySet_fromStream(is); long pos = (long)is.tellg();
-        VH_B; vh_s("e", "Cloud"); VH_C; vh_s("label", label); VH_C; vh_s("tr", tr ? "file" : "stream"); VH_C;
+        VH_B; vh_s("e", "Cloud"); VH_C; vh_s("label", label); VH_C; vh_s("tr", tr == 0 ? "stream" : tr == 1 ? "file" : "file2"); VH_C;
         fprintf(vh_out, "\"p\":{\"n\":%d,\"N\":%d,\"kk\":%d,\"l\":%d,\"Bgbit\":%d,\"t\":%d,\"bb\":%d,\"ksn\":%d},", n, N, k, gp->tgsw_params->l, gp->tgsw_params->Bgbit, gp->ks_t, gp->ks_basebit, k * N);
         // sizes in KiB-free form: bytes can exceed 2^31? no (default export ~114 MB); split anyway as [hi, lo] base 2^20
         fprintf(vh_out, "\"cloud\":[%lu,%lu],\"secret\":[%lu,%lu],\"text\":%lu,\"bin\":[%lu,%lu],", (unsigned long)(sc.data.size() >> 20), (unsigned long)(sc.data.size() & 0xfffff), (unsigned long)(ss.data.size() >> 20), (unsigned long)(ss.data.size() & 0xfffff), (unsigned long)text, (unsigned long)(bin >> 20), (unsigned long)(bin & 0xfffff));
@@ -97,6 +99,10 @@ int main(int argc, char** argv) {
             TFheGateBootstrappingParameterSet* ps = new TFheGateBootstrappingParameterSet(1 + rng.below(3), 1 + rng.below(2), lp, gp);
             TFheGateBootstrappingSecretKeySet* sk = new_random_gate_bootstrapping_secret_keyset(ps); cloud_report(sk, "custom"); delete_gate_bootstrapping_secret_keyset(sk);
         }
+        {   // a larger odd-sized set (k = 2, one gadget level, one key-switching digit): section boundaries fall at unusual offsets
+            LweParams* lp = new_LweParams(887, 1e-6, 0.01); TLweParams* tp = new_TLweParams(1024, 2, 1e-9, 0.01); TGswParams* gp = new_TGswParams(1, 8, tp);
+            TFheGateBootstrappingParameterSet* ps = new TFheGateBootstrappingParameterSet(1, 1, lp, gp);
+            TFheGateBootstrappingSecretKeySet* sk = new_random_gate_bootstrapping_secret_keyset(ps); cloud_report(sk, "custom"); delete_gate_bootstrapping_secret_keyset(sk); }
         for (long lam : vh_list(vh_sarg(argc, argv, "--lambdas", ""))) { TFheGateBootstrappingParameterSet* ps = new_default_gate_bootstrapping_parameters((int)lam); TFheGateBootstrappingSecretKeySet* sk = new_random_gate_bootstrapping_secret_keyset(ps); cloud_report(sk, "default"); delete_gate_bootstrapping_secret_keyset(sk); }
         fflush(stdout); return 0;
     }
